@@ -17,6 +17,7 @@ import (
 	"sort"
 	"strings"
 	"sync"
+	"sync/atomic"
 	"time"
 
 	"lunar/engine/config"
@@ -267,6 +268,94 @@ func (d *dispatchState) req(w []string) string {
 		return "err:dispatch"
 	}
 	return fmtDispatch(out, d.watch)
+}
+
+// burst: n concurrent DispatchOnRequest calls at ONE instant, released together by a spin barrier (first-use races:
+// the very first requests of a freshly loaded configuration arrive at the same time).  Whatever the interleaving,
+// min(n, free share) pass; a dispatch error means a request left the engine neither counted nor answered.
+func (d *dispatchState) burst(w []string) string {
+	u, ok1 := proto.KV(w, "url")
+	m, ok2 := proto.KV(w, "method")
+	if !ok1 || !ok2 {
+		panic("harness: bad dburst")
+	}
+	t, n, par := kvI(w, "t"), int(kvI(w, "n")), int(kvI(w, "par"))
+	if t < 0 || n < 1 || n > 1024 || par < 1 || par > 128 {
+		panic("harness: bad dburst")
+	}
+	hs := map[string]string{"content-type": "application/json", "content-length": "2"}
+	for _, h := range kvAll(w, "h") {
+		p := strings.Split(h, "&")
+		if len(p) != 2 {
+			panic("harness: bad header " + h)
+		}
+		hs[proto.Dec(p[0])] = proto.Dec(p[1])
+	}
+	if d.data == nil {
+		return "no-config"
+	}
+	contextmanager.Get().GetMockClock().Set(time.Unix(0, t))
+	url := proto.Dec(u)
+	path := "/"
+	if i := strings.Index(url, "/"); i >= 0 {
+		path = url[i:]
+	}
+	res := make([]string, n)
+	var wg sync.WaitGroup
+	var ready, gate int32
+	base := d.nreq
+	d.nreq += n
+	for g := 0; g < par; g++ {
+		wg.Add(1)
+		go func(g int) {
+			defer wg.Done()
+			atomic.AddInt32(&ready, 1)
+			for atomic.LoadInt32(&gate) == 0 { // spin: all workers leave the barrier within nanoseconds
+			}
+			for j := g; j < n; j += par {
+				id := fmt.Sprintf("q%d", base+j+1)
+				h := map[string]string{}
+				for k, v := range hs {
+					h[k] = v
+				}
+				res[j] = guarded(func() string {
+					out, err := runner.DispatchOnRequest(
+						lunarMessages.OnRequest{ID: id, SequenceID: id, Method: m, Scheme: "https", URL: url, Path: path,
+							Headers: h, Body: "{}", Time: time.Unix(0, t)},
+						&d.data.EndpointPolicyTree, &d.data.Config, d.svc, d.worker)
+					if err != nil {
+						return "err:dispatch"
+					}
+					return fmtDispatch(out, nil)
+				})
+			}
+		}(g)
+	}
+	for atomic.LoadInt32(&ready) < int32(par) {
+	}
+	atomic.StoreInt32(&gate, 1)
+	wg.Wait()
+	np, nb, ne, st := 0, 0, 0, "-"
+	for _, a := range res {
+		switch {
+		case a == "pass":
+			np++
+		case strings.HasPrefix(a, "early "):
+			nb++
+			f := strings.Fields(a)
+			if st == "-" {
+				st = f[1]
+			} else if st != f[1] {
+				st = "mixed"
+			}
+			if len(f) < 3 || f[2] != "body="+proto.Enc("Too many requests") {
+				st = "odd-body"
+			}
+		default:
+			ne++
+		}
+	}
+	return fmt.Sprintf("passed=%d blocked=%d err=%d status=%s", np, nb, ne, st)
 }
 
 func fmtDispatch(as spoe.Actions, watch map[string]bool) string {
